@@ -451,6 +451,22 @@ func runC10(w *fw.Worker) {
 				pat.WriteByte('-')
 				continue
 			}
+			if ch.strCast && lf.Name == "map[string]string" && fwd.Type() == strPtrTyp && r.Chance(30) {
+				// text written by hand: after the complete pairs, a key without any value text (it maps to "")
+				text := *(fwd.Interface().(*string))
+				if text != "" {
+					text += ","
+				}
+				text += `"zz-bare-key"`
+				fwd = reflect.ValueOf(&text)
+				m := reflect.MakeMap(v.Type())
+				for it := v.MapRange(); it.Next(); {
+					m.SetMapIndex(it.Key(), it.Value())
+				}
+				m.SetMapIndex(reflect.ValueOf("zz-bare-key"), reflect.ValueOf(""))
+				v = m
+				w.Count("map_texts_ending_in_a_key_without_value", 1)
+			}
 			loc, _ := c10Locate(tv, lr, &ch, useAlias)
 			loc.Set(fwd)
 			layer.Vals[lr] = v
